@@ -3,7 +3,7 @@ import json, os, shutil, tempfile
 from collections import Counter
 from concurrent.futures import ThreadPoolExecutor
 from vlib import *
-from checks.c12 import verbrun
+from checks.c12 import verbrun, eval_batched
 
 IFS, IPS = b"\x1f", b"\x1e"
 SEPARGS = ["--ifs", "\x1f", "--ips", "\x1e", "--ofs", "\x1f", "--ops", "\x1e"]
@@ -269,7 +269,7 @@ def run(ctx):
     forbidden_gate(ctx, ["Base", "C13"])
     ok, why = check_props(ctx, "C13/Props.v", ["C13/Harness.vo", "C13/Proofs.vo"])
     rng = ctx.rng
-    n = 450 if ctx.tier == "quick" else 12000
+    n = 600 if ctx.tier == "quick" else 8000
     cases = [gen_case(rng, ctx.tier) for _ in range(n)]
     tmpdir = tempfile.mkdtemp(prefix="verif-c13-")
     try:
@@ -314,7 +314,7 @@ def run(ctx):
                 ctx.violation({"broken": why}, found_input=False)
             return
         with ctx.timed("coq_cases"):
-            bad, err = coq_eval_mismatches(ctx, "C13", "Base.Record C13.Model C13.Harness", "bool * opts * list record * list record * list record", "chk", terms, shard=120)
+            bad, err = eval_batched(ctx, "C13", "Base.Record C13.Model C13.Harness", "bool * opts * list record * list record * list record", terms, shard=120)
         ctx.cov["correspondence"] = {"cases": len(terms), "mismatches": len(bad)}
         if err:
             ctx.violation({"broken": "correspondence-evaluation", "detail": err[-2000:]}, found_input=False)
